@@ -19,6 +19,10 @@ Definition invalid_ctx : span_ctx := mk_ctx (zeros kTraceIdBytes) (zeros kSpanId
    None = "return context", the caller's context unchanged *)
 Definition install (sc : span_ctx) : option span_ctx := if ctx_valid sc then Some sc else None.
 
+(* TextMapPropagator::Extract on an abstract context::Context; [set_span] stands for trace::SetSpan *)
+Definition extract_into {Ctx : Type} (set_span : Ctx -> span_ctx -> Ctx) (caller : Ctx) (sc : span_ctx) : Ctx :=
+  match install sc with Some c => set_span caller c | None => caller end.
+
 (* a TextMapCarrier backed by a map, dumped in key order; Get returns "" for an absent key *)
 Definition carrier := list (bytes * bytes).
 Fixpoint carrier_get (k : bytes) (c : carrier) : bytes :=
@@ -66,6 +70,8 @@ Definition b3_extract_impl (b3 xt xs xf : bytes) : span_ctx :=
   else b3_from_fields xt xs xf.
 
 Definition b3_extract (b3 xt xs xf : bytes) : option span_ctx := install (b3_extract_impl b3 xt xs xf).
+Definition b3_Extract {Ctx : Type} (set_span : Ctx -> span_ctx -> Ctx) (caller : Ctx) (b3 xt xs xf : bytes) : Ctx :=
+  extract_into set_span caller (b3_extract_impl b3 xt xs xf).
 
 Definition b3_extract_carrier (c : carrier) : option span_ctx :=
   b3_extract (carrier_get k_b3 c) (carrier_get k_xtid c) (carrier_get k_xsid c) (carrier_get k_xsampled c).
@@ -103,6 +109,8 @@ Definition jaeger_extract_impl (h : bytes) : span_ctx :=
   end.
 
 Definition jaeger_extract (h : bytes) : option span_ctx := install (jaeger_extract_impl h).
+Definition jaeger_Extract {Ctx : Type} (set_span : Ctx -> span_ctx -> Ctx) (caller : Ctx) (h : bytes) : Ctx :=
+  extract_into set_span caller (jaeger_extract_impl h).
 Definition jaeger_extract_carrier (c : carrier) : option span_ctx := jaeger_extract (carrier_get k_uber c).
 
 (* JaegerPropagator::Inject: trace-id(32):span-id(16):0:0<sampled> *)
